@@ -26,6 +26,7 @@ namespace plan
     // quarantine rules of open known findings (known_findings.json): shapes the main exploration keeps away from
     bool q_undecided_relations = true; // KF-P1: x != y, ^ over relations, b == (r & r): relation literals nobody decides
     bool q_disj_polarity = true;       // KF-P2: !(a | b), b == (a | c): the disjunction flaw forces a disjunct regardless of polarity
+    bool q_rr_numeric = false;         // KF-P7: capacities that are expressions (a peak that only a different capacity/amount value removes is never resolved); set where negative verdicts are judged
     long quarantined = 0;
     std::map<std::string, mpq_class> planted;
     std::map<std::string, bool> bplanted;
